@@ -26,7 +26,7 @@ class Check(PropertyCheck):
     rule = ("frame sequences over {DATA(frmNum 0..7, reTx 0/1, ackNum), ACK, NAK, RST, RSTACK(code), ERROR(code)} from every "
             "expected-number state 0..7 (reached by real traffic): exhaustive up to a length bound, plus long random sequences "
             "crossing the modulo-8 wrap; delivered through frame_received and, for a share of the cases, as wire bytes through "
-            "data_received, also while a DATA frame of the host itself awaits its acknowledgement (pairs of frames in one read); non-trivial = contains a DATA frame; distinct by (start state, entry point, sequence)")
+            "data_received, also while a DATA frame of the host itself awaits its acknowledgement (pairs of frames in one read), data fields up to the 128-byte maximum as wire bytes; non-trivial = contains a DATA frame; distinct by (start state, entry point, sequence)")
     assumptions = ["transport open (a closing transport makes _write_frame raise; outside the property)"]
 
     def build_cases(self, tier, rng):
@@ -71,6 +71,18 @@ class Check(PropertyCheck):
                     if f[0] == "RSTACK":
                         exp = 0
             cases.append((0, "bytes" if i % 2 else "frames", seq))
+        # data fields at and just below the maximum (128 bytes), arriving as wire bytes: after randomisation such a frame holds
+        # a few reserved bytes, so its stuffed image is longer than control byte + 128 + CRC; in and out of sequence
+        for i in range(60 if tier == "quick" else 600):
+            s0 = rng.randrange(8)
+            seq, exp = [], s0
+            for _ in range(rng.randrange(2, 7)):
+                n = rng.choice([128, 128, 127, 126, 125, 120, 100, 66, 65])
+                frm = exp if rng.random() < 0.75 else rng.randrange(8)
+                seq.append(("DATA", frm, rng.randrange(2), rng.randrange(8), bytes(rng.randrange(256) for _ in range(n))))
+                if frm == exp:
+                    exp = (exp + 1) % 8
+            cases.append((s0, "bytes", seq))
         return cases
 
     def run_busy(self, s, seq):
